@@ -1,11 +1,9 @@
 #!/bin/bash
 # Builds the verification harness (and the repository binaries two checks drive)
-# from files on disk only (offline).
+# from files on disk only (offline). Same code path as every check, so the
+# content stamps that guard against stale builds are written too.
 set -e
 cd "$(dirname "$0")"
-VERIF_DIR="$(pwd)"
-export CARGO_NET_OFFLINE=true RUST_BACKTRACE=0
 mkdir -p out evidence
-(cd harness && cargo build --release --offline)
-(cd /repo && cargo build -p abasic-cli -p abasic-lsp --offline --target-dir "$VERIF_DIR/harness/target/repo")
+./check --build-only
 echo "setup ok"
